@@ -6,6 +6,7 @@ import (
 	"errors"
 	"fmt"
 	"io"
+	"sync"
 	"time"
 
 	"github.com/dsnet/golib/memfile"
@@ -141,6 +142,9 @@ type BlockWise[C Client] struct {
 	errors                    func(error)
 	getSentRequestFromOutside func(token message.Token) (*pool.Message, bool)
 	expiration                time.Duration
+	// bodyMutex serializes slicing blocks out of the body of a message that is being sent: the body is one shared
+	// reader, and two copies of the peer's request for the next block may be handled at the same time.
+	bodyMutex sync.Mutex
 }
 
 type messageGuard struct {
@@ -417,6 +421,8 @@ func (b *BlockWise[C]) handleReceivedMessage(w *responsewriter.ResponseWriter[C]
 }
 
 func (b *BlockWise[C]) createSendingMessage(sendingMessage *pool.Message, maxSZX SZX, maxMessageSize uint32, block uint32) (sendMessage *pool.Message, more bool, err error) {
+	b.bodyMutex.Lock()
+	defer b.bodyMutex.Unlock()
 	blockType := message.Block2
 	sizeType := message.Size2
 	token := sendingMessage.Token()
